@@ -1,7 +1,6 @@
 import BearVerif.Core.Loop
 import BearVerif.Driver.C04
-/-! C04 driver: `lake env lean --run MainC04.lean`; requests `(c04 SIG (CALL…))`. -/
+/-! C04 driver: `lake env lean --run MainC04.lean`; requests `( c04 SIG ( CALL… ) )`, every parenthesis
+    blank-separated (`Wrap.serve` = `runLoop` with a natively tokenising front end, see Driver/C04.lean). -/
 open BearVerif
-def main : IO Unit := runLoop fun
-  | .list (.atom "c04" :: args) => Wrap.handle args
-  | _ => none
+def main : IO Unit := Wrap.serve
